@@ -379,6 +379,7 @@ pub fn generate(prop: &str, rng: &mut Rng, skip_fast: bool, run_index: u64) -> (
                     p.query_pct = 70;
                     p.peek = rng.chance(1, 2);
                     p.switch_methods = rng.chance(1, 3);
+                    p.query_slack = true;
                 }
                 "C08" => {
                     p.cap = rng.pick(&[0u8, 0, 1, 1, 2]);
@@ -419,6 +420,7 @@ pub fn generate(prop: &str, rng: &mut Rng, skip_fast: bool, run_index: u64) -> (
                 "C07" => {
                     p.query_pct = 70;
                     p.peek = rng.chance(1, 2);
+                    p.query_slack = true;
                 }
                 "C08" => {
                     p.cap = rng.pick(&[0u8, 0, 1, 1, 2]);
